@@ -192,6 +192,9 @@ def check_case(prop, sp, col, shard='corpus', cap=400):
             only_c = c['keys'] - f['keys']
             em_ = Emit(prop, col, sp, flags, 'FAST')
             em_.ctx = dict(f.get('ctx') or {})
+            # the comparison involves the connection encoders of BOTH processors (the two are selected separately)
+            both = {e for r_ in (f, c) for e in str((r_.get('ctx') or {}).get('conn_enc', '')).split(',') if e}
+            em_.ctx['conn_enc'] = ','.join(sorted(both))
             em_(
                 'fast_differs_from_complete', {'only_fast': len(f['keys'] - c['keys']), 'only_complete': len(only_c)},
                 where={'linked_partial_only': not (f['keys'] - c['keys']) and common.linked_partial_only(
